@@ -15,6 +15,28 @@ import textgen
 
 ALL = pipeline.ALL_TARGETS
 FLAG = {"lua": "-l", "rust": "-r", "go": "-g", "java": "-j", "python": "-p", "cpp": "-c"}
+LONG = {"lua": "--lua_output", "rust": "--rs_output", "go": "--go_output", "java": "--java_output", "python": "--py_output", "cpp": "--cpp_output"}
+
+
+def compile_args(style, implicit, f, outs, rng):
+    """the same compile request spelled with short flags, long flags, `--flag=value`, or with the input file last"""
+    pairs = [("file", f)] + list(outs)
+    if style in ("long-shuffled", "file-last"):
+        if style == "file-last":
+            pairs = pairs[1:] + pairs[:1]
+        else:
+            rng.shuffle(pairs)
+    args = [] if implicit else ["compile"]
+    for k, v in pairs:
+        short = "-f" if k == "file" else FLAG[k]
+        long_ = "--file" if k == "file" else LONG[k]
+        if style == "short" or style == "file-last":
+            args += [short, v]
+        elif style == "long-eq":
+            args += ["%s=%s" % (long_, v)]
+        else:
+            args += [long_, v]
+    return args
 
 
 def regenerate_facts(ctx):
@@ -206,7 +228,7 @@ def run_c16(ctx):
             f = os.path.join(d, "in.dsl")
             # format -d
             if t and "\x00" not in t and not t.startswith("-"):
-                rc, out, err = checks_front.cli(cbin, ["format", "-d", t], d)
+                rc, out, err = checks_front.cli(cbin, ["format", rng.choice(["-d", "-d", "--dsl"]), t], d)
                 want = (lr["out"] + "\n") if lr.get("ok") else None
                 if lr.get("ok"):
                     if rc != 0 or out != want:
@@ -218,7 +240,8 @@ def run_c16(ctx):
             # format -f
             with open(f, "w", encoding="utf-8") as fh:
                 fh.write(t)
-            rc, out, err = checks_front.cli(cbin, ["format", "-f", f], d)
+            fl = rng.choice(["-f", "-f", "--file", "--file=" + f])
+            rc, out, err = checks_front.cli(cbin, ["format", fl] if "=" in fl else ["format", fl, f], d)
             after = open(f, encoding="utf-8").read()
             if lr.get("ok"):
                 if rc != 0 or after != lr["out"]:
@@ -259,7 +282,8 @@ def run_c16(ctx):
                 for r in exp.get("runs", []):
                     for name, body in (r.get("files") or {}).items():
                         want[os.path.normpath(os.path.join(r["lang"], name))] = body.encode("utf-8")
-                for implicit, stale in ((False, False), (True, False), (False, True)):
+                for implicit, stale, style in ((False, False, "short"), (True, False, "short"), (False, True, "short"),
+                                               (True, False, "long-shuffled"), (False, False, "long-eq"), (True, False, "file-last")):
                     o = os.path.join(d, "out")
                     rm(o)
                     if stale:
@@ -269,9 +293,7 @@ def run_c16(ctx):
                             os.makedirs(os.path.dirname(pth), exist_ok=True)
                             with open(pth, "wb") as fh:
                                 fh.write(body + b"\n// stale tail of a previous, longer output\n" * 20)
-                    args = ([] if implicit else ["compile"]) + ["-f", f]
-                    for lang in sub:
-                        args += [FLAG[lang], os.path.join(o, lang)]
+                    args = compile_args(style, implicit, f, [(lang, os.path.join(o, lang)) for lang in sub], rng)
                     before = set(os.listdir(d))
                     rc, out, err = checks_front.cli(cbin, args, d)
                     got = read_tree(o)
@@ -279,7 +301,7 @@ def run_c16(ctx):
                     stray = set(os.listdir(d)) - before - {"out"}
                     if rc != 0 or got != want or stray:
                         bad = sorted(k for k in set(got) | set(want) if got.get(k) != want.get(k))
-                        ctx.finding("compile/%s" % ("over-existing-files" if stale else "implicit" if implicit else "explicit"),
+                        ctx.finding("compile/%s%s" % ("over-existing-files" if stale else "implicit" if implicit else "explicit", "" if style == "short" else "/" + style),
                                     "compile%s leaves files that differ from the generators' (exit %d)" % (" over existing, longer files" if stale else " without the sub-command word" if implicit else "", rc),
                                     {"dsl": t, "args": args, "differing": bad[:6], "stray": sorted(stray)[:5], "stdout": out[-400:]})
                     else:
